@@ -543,3 +543,66 @@ def cancel_refused_without_cancelling() -> set:
             out.add(c[1])
             out.add(c[3])
     return out
+
+
+# ------------------------------------------------------------------------------------------------
+# C10 failing-line stratum (additive: nothing above uses this). Method lines that fail when they are executed and put
+# the run into the error pause, grouped by the way they fail. Every line was probed against the unchanged tree; the
+# check counts per kind how often the error pause was really reached (REQUIRED), so a line that stops failing shows up
+# as INCONCLUSIVE, never as silent loss of coverage.
+FAIL_LINES: dict[str, tuple[str, ...]] = {
+    "sim_inconvertible_unit": ("Simulate: FT01 = 5 kg", "Simulate: TT01 = 3 L/h", "Simulate: Out2 = 2 s",
+                               "Simulate: FT01 = 2 degC"),
+    "sim_unknown_unit": ("Simulate: FT01 = 5 foo", "Simulate: TT01 = 1 quux"),
+    "sim_unit_on_unitless_tag": ("Simulate: X = 3 L", "Simulate: Out1 = 1 kg", "Simulate: Run Counter = 3 L",
+                                 "Simulate: Plain = 2 s"),
+    "sim_unit_on_categorical_tag": ("Simulate: Sel = 5 kg", "Simulate: Sel = 1 L/h"),
+    "sim_unknown_tag": ("Simulate: Nope = 3", "Simulate off: Nope", "Simulate: Nope = 3 L/h"),
+    "sim_malformed": ("Simulate", "Simulate: = 5", "Simulate off"),
+    "uod_bad_arguments": ("Set2: abc", "Set2: 3 kg", "Set2", "Mode: C"),
+    "uod_exec_raises": ("Set1: x", "Set1", "SetPlain: y", "Fail"),
+    "engine_command_bad_arguments": ("Hold: -1s", "Pause: 5 x", "Hold: 3", "Stop: 3", "Restart: 1"),
+    "interpreter_command_bad_arguments": ("Wait: abc", "Wait", "Wait: 3", "Run counter: x", "Base: foo"),
+    "unknown_instruction": ("Foo", "Foo: 3", "0.x Mark: zz"),
+    "bad_condition": ("Watch: Nope > 3", "Alarm: Nope > 3", "Watch: FT01 > 3 kg"),
+    "undefined_macro": ("Call macro: Undefined", "Call macro"),
+}
+# valid lines put right before / after the failing line: simulations of every tag class and commands that keep running
+FAIL_CONTEXT_SIM = ("Simulate: X = 2", "Simulate: FT01 = 3 L/h", "Simulate: Sel = B", "Simulate: TT01 = 30 degC",
+                    "Simulate: Out1 = 4", "Simulate: Run Counter = 7")
+FAIL_CONTEXT_CMD = ("Long", "Long2", "Other", "Drive1")
+
+
+def select_tag_uod_factory(long_n: int = 4, fail_at: int = 1):
+    """uod_factory for R.EngineRig: the standard rig UOD (R.make_uod, same commands/callback log) plus one categorical
+    tag `Sel` (SelectTag, choices A/B, no unit), added through the real UodBuilder.with_tag right before the real
+    UodBuilder.build runs."""
+    from openpectus.lang.exec.uod import UodBuilder
+    from openpectus.lang.exec.tags_impl import SelectTag
+
+    def factory(log):
+        orig_build = UodBuilder.build
+
+        def build(self):
+            self.with_tag(SelectTag("Sel", value="A", unit=None, choices=["A", "B"]))
+            return orig_build(self)
+        UodBuilder.build = build
+        try:
+            return R.make_uod(log, long_n=long_n, fail_at=fail_at)
+        finally:
+            UodBuilder.build = orig_build
+    return factory
+
+
+def append_or_insert_lines(text: str, at: int, new_lines: list[str]) -> str:
+    """Insert `new_lines` (in order) before the `at`-th non-blank, non-comment line with that line's indentation; when
+    there is no such line they are appended at indentation 0."""
+    lines = text.split("\n")
+    idx = [i for i, ln in enumerate(lines) if ln.strip() and not ln.strip().startswith("#")]
+    if at >= len(idx):
+        body = lines[:-1] if lines and lines[-1] == "" else lines
+        return "\n".join(body + list(new_lines)) + "\n"
+    i = idx[at]
+    ind = len(lines[i]) - len(lines[i].lstrip(" "))
+    lines[i:i] = [" " * ind + ln for ln in new_lines]
+    return "\n".join(lines)
